@@ -332,8 +332,45 @@ def check_order(ctx):
             ctx.violate(R, b2[0], "pool.%s used" % other, "results may arrive out of task order", key="unordered:" + other)
 
 
+def check_dtype(ctx):
+    R = "C05-DTYPE"
+    ctx.rule(R, "sibling agreement on precision: the three producers of the packed array - JokerSamples.pack (in memory), read_batch_slice and read_batch_idx (cache) - carry "
+                "out the unit conversion in the same precision, that of the stored samples (the array keeps the library's dtype until the conversion is done; the kernel "
+                "casts to double afterwards).  A reader that allocates double precision up front converts a single-precision library in double and returns other "
+                "numbers for the same prior sample than its siblings.")
+    ut = "thejoker.utils"
+    pol = {}
+    site = {}
+    for q in ("read_batch_slice", "read_batch_idx"):
+        fn = ctx.prog.func(ut, q, R)
+        allocs = [c for c in A.calls_in(fn) if (A.call_name(c) or "") in ("np.zeros", "np.empty", "np.full", "np.zeros_like", "np.empty_like")]
+        if len(allocs) != 1:
+            pol[q], site[q] = "unknown (%d allocations)" % len(allocs), fn
+            continue
+        d = A.get_arg(allocs[0], None, "dtype")
+        site[q] = allocs[0]
+        if d is None:
+            pol[q] = "float64"
+        elif isinstance(d, ast.Attribute) and d.attr == "dtype":
+            src = A.inline_temporaries(d.value, A.enclosing_stmt(allocs[0]), fn)
+            pol[q] = "stored" if isinstance(src, ast.Call) and A.last_attr(src) in ("read", "read_coordinates") else "dtype of `%s`" % A.unparse(src)[:40]
+        else:
+            pol[q] = "float64" if canon(d) in ("np.float64", "float", "np.double") or A.str_const(d) in ("f8", "float64", "d") else "`%s`" % A.unparse(d)[:30]
+    pk = ctx.prog.func("thejoker.samples", "JokerSamples.pack", R)
+    casts = [c for c in A.calls_in(pk) if A.last_attr(c) == "astype" or ((A.call_name(c) or "") in ("np.zeros", "np.empty", "np.asarray", "np.array") and A.get_arg(c, None, "dtype") is not None)]
+    pol["pack"] = "stored" if not casts else "cast (`%s`)" % A.unparse(casts[0])[:40]
+    site["pack"] = casts[0] if casts else pk
+    ref = pol["pack"]
+    for q in ("read_batch_slice", "read_batch_idx"):
+        ctx.check(R, site[q], "%s converts in the same precision as the in-memory path" % q, pol[q] == ref,
+                  "%s allocates its batch as %s, JokerSamples.pack keeps %s: a single-precision library is converted in another precision on this path "
+                  "(ln-likelihoods of the same sample differ between execution paths)" % (q, pol[q], ref), key="dtype")
+    ctx.notes.append({"precision_policy": pol})
+
+
 def run(ctx):
     from .C07 import _Relabel
+    check_dtype(ctx)
     check_pickle(ctx)
     from .C02 import check_cache
     check_cache(ctx, "C05-CACHE")
